@@ -200,10 +200,10 @@ Proof.
       eapply find_longest_ok; eauto. }
   clear EF found. destruct Hf as (F1 & F2 & F3 & F4 & F5 & F6 & F7 & F8 & F9 & F10).
   set (n1 := if (n =? length prompt)%nat then Nat.pred n else n) in H.
-  set (n2 := if (0 <? n1)%nat && negb (canResume cfg) then 0%nat else n1) in H.
+  set (n2 := if (0 <? n1)%nat && negb (can_resume cfg kv1 i1 (Z.of_nat n1)) then 0%nat else n1) in H.
   assert (Hn1 : (n1 <= n)%nat /\ (n1 < length prompt)%nat).
   { subst n1. destruct prompt; [congruence|]. cbn [length] in *. destruct (n =? S (length prompt))%nat eqn:E; lia. }
-  assert (Hn2 : (n2 <= n1)%nat) by (subst n2; destruct ((0 <? n1)%nat && negb (canResume cfg)); lia).
+  assert (Hn2 : (n2 <= n1)%nat) by (subst n2; destruct ((0 <? n1)%nat && negb (can_resume cfg kv1 i1 (Z.of_nat n1))); lia).
   destruct (match kv_remove_tail cfg kv1 i1 (Z.of_nat n2) with Some kv'0 => (kv'0, n2) | None => (kv_trunc kv1 i1 0, 0%nat) end)
     as [kv2 n3] eqn:ER.
   inversion H; subst sl' kv' i rest. clear H.
